@@ -66,7 +66,21 @@ fn replay_invariant(key: &[u8; 64], cold0: &Files, hot0: &Files, cold_log: &[Op]
         }
         n += 1;
         if op.tpe == FileType::Config {
-            continue; // the hot config legitimately differs (is_hot flag)
+            // the hot config legitimately differs from the cold one in the is_hot marker - and only the hot one carries it
+            if let Some(data) = target.get(&k) {
+                if let Ok(json) = crate::audit::decode_file(key, data) {
+                    if let Ok(v) = serde_json::from_slice::<serde_json::Value>(&json) {
+                        let marked = v.get("is_hot").and_then(serde_json::Value::as_bool) == Some(true);
+                        if marked != is_hot {
+                            rep.violation(
+                                if is_hot { "C16/hot-config-not-marked-hot".to_string() } else { "C16/cold-config-marked-hot".to_string() },
+                                format!("{what}: after {} op `{}`: is_hot = {:?} in the config of the {} store", if is_hot { "hot" } else { "cold" }, op.label(), v.get("is_hot"), if is_hot { "hot" } else { "cold" }),
+                            );
+                        }
+                    }
+                }
+            }
+            continue;
         }
         let where_ = format!("{what}: after {} op `{}`", if is_hot { "hot" } else { "cold" }, op.label());
         // (a) what the cold store lists must be in hot with identical bytes (packs: tree packs only)
@@ -167,7 +181,7 @@ impl Prop for C16 {
     }
     fn rule(&self) -> &'static str {
         "one run = a hot/cold pair of SimStores (cold store needs warm-up; in half of the runs it rejects pack reads that were not warmed up) under the library's own HotColdBackend, plus a single-store twin fed the same history \
-         (backup, forget, repacking prune - instant or marking only -, config change, key add, key removal, copy of a snapshot from another repository into the pair; partly under seeded gate schedules). Oracles: (1) the combined hot+cold mutation log is replayed op by op and after EVERY op every key/snapshot/index/tree-pack file listed by cold must be in hot with identical bytes and no data pack may be in hot — i.e. at every crash prefix; \
+         (backup, forget, repacking prune - instant or marking only -, config change, key add, key removal, copy of a snapshot from another repository into the pair; partly under seeded gate schedules). Oracles: (1) the combined hot+cold mutation log is replayed op by op and after EVERY op every key/snapshot/index/tree-pack file listed by cold must be in hot with identical bytes and no data pack may be in hot, and exactly the hot store's config carries the is_hot marker — i.e. at every crash prefix; \
          (2) snapshot sets (tree id, time) equal the twin's and every snapshot reads back equal to its model; (3) for restore into an empty directory, a second restore onto that directory after damaging some of its files, repacking prune and repair_index (in half of the runs after losing some or all index files, so that pack headers must be read from the cold store; every snapshot must read back afterwards) on the rejecting cold store (all packs cooled down before each command) the commands succeed and every cold pack read is preceded by a warm-up request for that pack; \
          (4) a seeded subset (or all) of the hot files is removed, repair_hotcold_except_packs + repair_hotcold_packs run, the invariant holds again and check is clean; (5) one storage op of a backup fails on the hot or the cold store: the command returns Err and the per-op invariant still holds. \
          evaluations = ops replayed + end oracles; non-trivial = >= 10 ops replayed and a repack or a repair actually moved files; distinct = hash(history, config)"
